@@ -394,6 +394,8 @@ MUTANTS += [
          old="        if load_step > self.max_load_steps:\n            warnings.warn(", new="        if False:\n            warnings.warn(", expect="C23.R8"),
 ]
 NEUTRAL = [
+    dict(id="c23-n4", what="Riks raises instead of warning when the step limit cuts the run", file=ST,
+         old="        if load_step > self.max_load_steps:\n            warnings.warn(", new="        if load_step > self.max_load_steps:\n            raise RuntimeError(\"maximum number of load steps reached\")\n        if False:\n            warnings.warn("),
     dict(id="c23-n3", what="Riks: first load parameter written as the constant of xk", file=ST,
          old="        la_arc = [self.xk[-1]]  # the initial state belongs to the load level of xk\n", new="        la_arc = [0.0]\n"),
     dict(id="c23-n2", what="Newton.solve: range(self.nt) instead of range(0, self.nt)", file=ST,
